@@ -368,18 +368,45 @@ Definition build_response_pool (v : variant) (xid : N) (ciaddr : option bytes) (
   payload <- build_dhcp4_reply v xid ciaddr ip gateway hw msgtype opts ;;
   build_ipv4_udp_frame v gateway (Some [255;255;255;255]) 67 68 payload.
 
-(* encodeClasslessRoutes; a route is (prefix length, destination, next hop) *)
+(* encodeClasslessRoutes; a route is (prefix length given to net.CIDRMask(ones,32), destination, next hop).
+   CIDRMask returns nil for ones > 32 and Mask.Size() of nil is (0,0).  Destination.IP.To4()[:n] panics only when
+   n exceeds the length of the To4 result (nil[:0] is fine). *)
 Fixpoint classless (routes : list (N * option bytes * option bytes)) : result bytes :=
   match routes with
   | [] => Ok []
-  | (ones, dst, nh) :: r =>
-    match to4 dst with
-    | None => Panic
-    | Some d4 =>
+  | (ones0, dst, nh) :: r =>
+    let ones := if ones0 <=? 32 then ones0 else 0 in
+    let d4 := opt_bytes (to4 dst) in
+    let sb := N.to_nat ((ones + 7) / 8) in
+    if (length d4 <? sb)%nat then Panic
+    else
       rest <- classless r ;;
-      Ok ([ones mod 256] ++ firstn (N.to_nat ((ones + 7) / 8)) d4 ++ opt_bytes (to4 nh) ++ rest)
+      Ok ([ones] ++ firstn sb d4 ++ opt_bytes (to4 nh) ++ rest)
+  end.
+
+(* reference RFC 3442 decoder: (width, significant destination octets, router) *)
+Fixpoint ref_routes (fuel : nat) (l : bytes) : option (list (N * bytes * bytes)) :=
+  match fuel with
+  | O => None
+  | S f =>
+    match l with
+    | [] => Some []
+    | w :: r =>
+      if 32 <? w then None
+      else
+        let sb := N.to_nat ((w + 7) / 8) in
+        if (length r <? sb + 4)%nat then None
+        else match ref_routes f (skipn (sb + 4) r) with
+             | Some rs => Some ((w, firstn sb r, firstn 4 (skipn sb r)) :: rs)
+             | None => None
+             end
     end
   end.
+
+(* pkg/config/ip/dhcp_options.go DHCPOption.Validate (run by config.validateDHCPOptions at load time):
+   reserved tags, the deny list of tags the server emits itself, payload <= 255 *)
+Definition raw_option_valid (o : N * bytes) : bool :=
+  negb (existsb (N.eqb (fst o)) [0; 255; 1; 3; 6; 51; 53; 54; 82; 121]) && (length (snd o) <=? 255)%nat.
 
 (* buildResponseFromResolved *)
 Definition build_response_resolved (v : variant) (xid : N) (ciaddr : option bytes) (hw : bytes) (msgtype : N)
@@ -597,6 +624,38 @@ Fixpoint unwrap_relay (depth : nat) (data : bytes) : option parsed6 * option rel
         else (parse_message6 inner, Some info)
       | None => (None, Some info)
       end
+  end.
+
+(* dhcp6.UnwrapRelayReply (message.go): first Relay-Message option, recursing into nested relay-replies *)
+Fixpoint unwrap_relay_reply6 (depth : nat) (data : bytes) : option parsed6 :=
+  match depth with
+  | O => None
+  | S d =>
+    if ((length data <? 34)%nat || negb (nth 0 data 0 =? 13))%bool then None
+    else match extract_loop (S (length data)) (skipn 34 data) with
+         | Some inner =>
+           if ((0 <? length inner)%nat && (nth 0 inner 0 =? 13))%bool then unwrap_relay_reply6 d inner
+           else parse_message6 inner
+         | None => None
+         end
+  end.
+
+(* strict 1-byte-code / 1-byte-length TLV decoder (RFC 3046 sub-options): None unless the bytes are exactly a
+   sequence of complete TLVs *)
+Fixpoint sub_tlv (fuel : nat) (l : bytes) : option (list (N * bytes)) :=
+  match fuel with
+  | O => None
+  | S f =>
+    match l with
+    | [] => Some []
+    | [_] => None
+    | c :: n :: r =>
+      if (length r <? N.to_nat n)%nat then None
+      else match sub_tlv f (skipn (N.to_nat n) r) with
+           | Some os => Some ((c, firstn (N.to_nat n) r) :: os)
+           | None => None
+           end
+    end
   end.
 
 (* ------------------------------------------------------------------ relay/v6rewrite.go *)
